@@ -77,6 +77,7 @@ def normalise(toks, user_names):
             out.append(t)
     # explicit UNIT= (first item) and FMT= (second item) of an I/O control list are a documented canonicalisation
     out = _drop_io_keywords(out)
+    out = _canon_format(out)
     # empty dummy-argument parentheses of a SUBROUTINE statement are optional
     res = []
     i = 0
@@ -125,6 +126,41 @@ def _drop_io_keywords(toks):
                     start = True
                 out.append(t)
                 i += 1
+            continue
+        i += 1
+    return out
+
+
+def _canon_format(toks):
+    """commas in FORMAT lists next to a slash or colon edit descriptor are optional, '//' is two slashes
+    (documented canonicalisation: the printer always writes the commas)"""
+    out = []
+    i, n = 0, len(toks)
+    while i < n:
+        out.append(toks[i])
+        if toks[i] == "FORMAT" and i + 1 < n and toks[i + 1] == "(":
+            i += 1
+            depth = 0
+            body = []
+            while i < n:
+                t = toks[i]
+                if t == "(":
+                    depth += 1
+                elif t == ")":
+                    depth -= 1
+                if t == "//":
+                    body += ["/", "/"]
+                else:
+                    body.append(t)
+                i += 1
+                if depth == 0:
+                    break
+            res = []
+            for k, t in enumerate(body):
+                if t == "," and ((k > 0 and body[k - 1] in ("/", ":")) or (k + 1 < len(body) and body[k + 1] in ("/", ":"))):
+                    continue
+                res.append(t)
+            out += res
             continue
         i += 1
     return out
